@@ -206,7 +206,7 @@ fn gen_layout(t: &mut Tape) -> Layout {
         };
         let repos_so_far: Vec<usize> =
             (0..nodes.len()).filter(|&k| matches!(nodes[k].deco, Deco::Repo(_))).collect();
-        let deco = match t.weighted(&[10, 9, 4, 4, 1, 3, 4, 1, 2]) {
+        let deco = match t.weighted(&[10, 9, 4, 4, 1, 3, 4, 1, 4]) {
             0 => Deco::Plain,
             1 => Deco::Repo(gen_gitdir(t, false)),
             2 => Deco::Bare(gen_gitdir(t, true)),
@@ -484,7 +484,7 @@ fn gen_queries(t: &mut Tape, ncands_hint: usize, nlinks_hint: usize, n: usize) -
     (0..n)
         .map(|_| {
             let start = t.below(ncands_hint.max(1));
-            let style = match t.weighted(&[6, 5, 2, 1, 2]) {
+            let style = match t.weighted(&[6, 5, 2, 1, 4]) {
                 0 => StartStyle::Absolute,
                 1 => StartStyle::RelativeTo(t.below(ncands_hint.max(1)), t.chance(170)),
                 2 => StartStyle::DotDot,
@@ -499,7 +499,7 @@ fn gen_queries(t: &mut Tape, ncands_hint: usize, nlinks_hint: usize, n: usize) -
             };
             let nceil = t.weighted(&[5, 6, 3, 1]);
             let ceilings = (0..nceil)
-                .map(|_| match t.weighted(&[10, 3, 1, 2, 1]) {
+                .map(|_| match t.weighted(&[10, 3, 1, 3, 1]) {
                     0 => Ceil::Ancestor(t.below(6), t.chance(64)),
                     1 => Ceil::Other(t.below(ncands_hint.max(1)), t.chance(64)),
                     2 => Ceil::Nonexistent,
